@@ -89,10 +89,9 @@ fn get_server_values(bufferer: &mut Buffer<LittleEndian>) -> GDResult<HashMap<St
 fn get_players<Client: QuakeClient>(bufferer: &mut Buffer<LittleEndian>) -> GDResult<Vec<Client::Player>> {
     let mut players: Vec<Client::Player> = Vec::new();
 
-    // this needs to be looked at again as theres no way to check if the buffer has
-    // a remaining null byte the original code was:
-    // while !bufferer.is_remaining_empty() && bufferer.remaining_data() != [0x00]
-    while !bufferer.remaining_length() == 0 {
+    // One line per player until the end of the packet; QuakeWorld servers
+    // terminate the packet with a single null byte, which is not a player line.
+    while bufferer.remaining_length() > 0 && bufferer.remaining_bytes() != [0x00] {
         let data = bufferer.read_string::<Utf8Decoder>(Some([0x0A]))?;
         let data_split = data.split(' ').collect::<Vec<&str>>();
         let data_iter = data_split.iter();
